@@ -307,6 +307,18 @@ pub fn explore<const N: usize>(
     alphabet: &dyn Fn(usize, usize) -> Vec<Act>,
     cb: &mut dyn FnMut(usize, &State, &Act, &Trans),
 ) -> Space {
+    explore_dup::<N>(mode, limits, alphabet, cb, &mut |_, _| {})
+}
+
+/// Like `explore`, and additionally reports every *convergence*: a recipe that reaches an already
+/// known key by a different path (`dup(index of the representative state, newcomer recipe)`).
+pub fn explore_dup<const N: usize>(
+    mode: KeyMode,
+    limits: &Limits,
+    alphabet: &dyn Fn(usize, usize) -> Vec<Act>,
+    cb: &mut dyn FnMut(usize, &State, &Act, &Trans),
+    dup: &mut dyn FnMut(usize, &Recipe),
+) -> Space {
     let t0 = std::time::Instant::now();
     let mut sp = Space {
         states: vec![],
@@ -317,9 +329,10 @@ pub fn explore<const N: usize>(
         layouts: 0,
         expected_layouts: if N == 0 { 1 } else { N * (N + 1) },
     };
-    let add = |sp: &mut Space, recipe: Recipe, snap: &Snap, depth: usize| -> bool {
+    let mut add = |sp: &mut Space, recipe: Recipe, snap: &Snap, depth: usize| -> bool {
         let key = key_of(mode, snap);
-        if sp.index.contains_key(&key) {
+        if let Some(ix) = sp.index.get(&key) {
+            dup(*ix, &recipe);
             return false;
         }
         let front = snap.occ().first().copied().unwrap_or(usize::MAX);
